@@ -19,8 +19,8 @@ PID = "C01"
 LEVEL = "proof"
 LEAN = ["SaVerif.Props.C01"]
 META = {
-    "text": "Lean, three layers. (1) Backend: a backend groups the emitted token sequence with an operator-precedence parser over its binding-power table; proved for EVERY token tree and EVERY grammar: wb g t -> parse g (print t) = t, re-association of associative chains changes neither the text nor the value (print_norm, evalG_norm), and a compositional sufficient condition ok g t -> wb g (norm t) (each node only checks that its operands bind tighter than its own binding powers). (2) SQLAlchemy: construction (self_group / is_precedent / associative flattening / and_-or_ folding / negation rewriting / AsBoolean / _between_impl) and rendering (visit_* + sqlite/postgresql/mysql overrides) are transcribed; the operator tables are REGENERATED from the working tree. End-to-end theorems api_tree_value_bool / api_tree_value_num (for every API-call tree of the fragment, every row, the three-valued value the backend computes from the emitted text IS the meaning of the tree — grouping, flattening, single-clause collapse and negation rewriting included; build_bool_eval, negate_eval, boolConstruct_eval, constructForOp_eval) and api_tree_read_back / render_meaning_preserved: for EVERY API-call tree (NumU/BoolU, any size and nesting) the element `build` constructs is in the core fragment and well grouped (build_num, build_bool: induction through _binary_operate, _boolean_compare, _construct_for_op flattening, and_/or_ _construct, _negate), and (core_render_read_back) every well-grouped element (any size/depth) over + - * % / (truediv: sqlite `l / (r + 0.0)`, postgresql `l / CAST(r AS NUMERIC)`, mysql `l / r`) // (plain `/` for Integer operands where `/` is integer division, else FLOOR(l / r)) unary-minus = != < <= > >= IS IS-NOT AND OR NOT, parentheses and LIKE / NOT LIKE / ILIKE / NOT ILIKE with or without ESCAPE over string-valued operands (ternary `x LIKE y ESCAPE c` nodes; `lower(x) LIKE lower(y)` outside PostgreSQL; value = the backend's LIKE, abstract in the theorems, SQLite's in the driver), string concatenation (`a || b` chains, MySQL `concat(…)`; on SQLite PARTIAL: the F1 cells — an arithmetic operator exposed under `||` — are excluded by the hypothesis ConcatSafe / CSH, PostgreSQL and MySQL unconditional) and the bracket constructs (scalar subquery, function call, CAST, searched / simple CASE: separator chains `,` AS WHEN THEN ELSE inside brackets) renders to text that SQLite / PostgreSQL / MySQL read back as the same tree, hence (core_render_meaning_preserved) evaluates to the value of the fully parenthesised text under every interpretation with associative + * AND OR; the hypothesis coreCompat (higher regenerated precedence number => binds tighter in the grammar on both sides, naturally self-precedent operators are left-associative chains) is decided by the kernel per grammar; the constructors are proved to establish well-groupedness. For ALL operator pairs (incl. concat, LIKE family, IS DISTINCT, truediv/floordiv forms) the same is decided pairwise per dialect. (3) Semantic rewrites over three-valued logic, all operands: every pair of the regenerated negation table is a true negation except is_/is_not with themselves; every operator of the regenerated _associative set is associative. Ties checked on every run: model text == real compiler text on sqlite/postgresql/mysql/mariadb/default (type affinity included; on a textual difference both texts are re-read by the model grammar), real SQLite groups tokens exactly as the model's sqlite table (also with parentheses dropped at random), construction is a pure function (in the model `build` is a function on immutable values, so extending an expression cannot change an existing one — trivially true in Lean; the tie to the real code is the DAG check: element objects SHARED between several expressions and re-used after being extended, for + * || chains, and_/or_ `&=`-style accumulation and clause lists, must still render and evaluate like the same tree built from fresh leaves), and the property itself is tested by executing the real statement on SQLite against an independent fully parenthesised reference over a table with NULLs, negatives, empty strings.",
-    "note": "Known findings (partial theorems + counterexamples in Lean, exact per-tree classification by neutralising the one defective decision): sqlite-concat-parent-arith-child (F1), negate-is-general-operand, between-bound-ungrouped, asbool-operand-ungrouped. The general theorem covers the core fragment incl. subquery / CAST / coalesce / CASE (value of a CAST and of a non-coalesce function abstract: class Abs); the backend's `/` itself is abstract in the value theorems (Val has no non-integer numbers); BETWEEN / IN / IS DISTINCT and LIKE over non-string operands are covered pairwise (depth 2) by kernel decision plus the per-tree runtime verdict (wb, reading == tree) on every generated tree. PostgreSQL/MySQL grammar tables are from documentation and NOT validated (no server); only SQLite executes. Scalar subqueries and literals are atoms; floating point + and * are treated as associative. Trusted: Lean kernel, harness, backend lexers/bracket matching (the model starts from tokens), SQLite's evaluation of fully parenthesised text.",
+    "text": "Lean, three layers. (1) Backend: a backend groups the emitted token sequence with an operator-precedence parser over its binding-power table; proved for EVERY token tree and EVERY grammar: wb g t -> parse g (print t) = t, re-association of associative chains changes neither the text nor the value (print_norm, evalG_norm), and a compositional sufficient condition ok g t -> wb g (norm t) (each node only checks that its operands bind tighter than its own binding powers). (2) SQLAlchemy: construction (self_group / is_precedent / associative flattening / and_-or_ folding / negation rewriting / AsBoolean / _between_impl) and rendering (visit_* + sqlite/postgresql/mysql overrides) are transcribed; the operator tables are REGENERATED from the working tree. End-to-end theorems api_tree_value_bool / api_tree_value_num (for every API-call tree of the fragment, every row, the three-valued value the backend computes from the emitted text IS the meaning of the tree — grouping, flattening, single-clause collapse and negation rewriting included; build_bool_eval, negate_eval, boolConstruct_eval, constructForOp_eval) and api_tree_read_back / render_meaning_preserved: for EVERY API-call tree (NumU/BoolU, any size and nesting) the element `build` constructs is in the core fragment and well grouped (build_num, build_bool: induction through _binary_operate, _boolean_compare, _construct_for_op flattening, and_/or_ _construct, _negate), and (core_render_read_back) every well-grouped element (any size/depth) over + - * % / (truediv: sqlite `l / (r + 0.0)`, postgresql `l / CAST(r AS NUMERIC)`, mysql `l / r`) // (plain `/` for Integer operands where `/` is integer division, else FLOOR(l / r)) unary-minus = != < <= > >= IS IS-NOT AND OR NOT, parentheses and BETWEEN / NOT BETWEEN over numeric trees (one ternary node; the ungrouped `lo AND hi` pair of _between_impl; PARTIAL: the cells of finding between-bound-ungrouped — a bound exposing an operator that does not bind tighter than BETWEEN — are excluded by Core), IN / NOT IN with a non-empty expanding list of literals (`x IN (v1, …)`, `(x NOT IN (…))`; the negation switches the operator of the expanding parameter; three-valued), LIKE / NOT LIKE / ILIKE / NOT ILIKE with or without ESCAPE over string-valued operands (ternary `x LIKE y ESCAPE c` nodes; `lower(x) LIKE lower(y)` outside PostgreSQL; value = the backend's LIKE, abstract in the theorems, SQLite's in the driver), string concatenation (`a || b` chains, MySQL `concat(…)`; on SQLite PARTIAL: the F1 cells — an arithmetic operator exposed under `||` — are excluded by the hypothesis ConcatSafe / CSH, PostgreSQL and MySQL unconditional) and the bracket constructs (scalar subquery, function call, CAST, searched / simple CASE: separator chains `,` AS WHEN THEN ELSE inside brackets) renders to text that SQLite / PostgreSQL / MySQL read back as the same tree, hence (core_render_meaning_preserved) evaluates to the value of the fully parenthesised text under every interpretation with associative + * AND OR; the hypothesis coreCompat (higher regenerated precedence number => binds tighter in the grammar on both sides, naturally self-precedent operators are left-associative chains) is decided by the kernel per grammar; the constructors are proved to establish well-groupedness. For ALL operator pairs (incl. concat, LIKE family, IS DISTINCT, truediv/floordiv forms) the same is decided pairwise per dialect. (3) Semantic rewrites over three-valued logic, all operands: every pair of the regenerated negation table is a true negation except is_/is_not with themselves; every operator of the regenerated _associative set is associative. Ties checked on every run: model text == real compiler text on sqlite/postgresql/mysql/mariadb/default (type affinity included; on a textual difference both texts are re-read by the model grammar), real SQLite groups tokens exactly as the model's sqlite table (also with parentheses dropped at random), construction is a pure function (in the model `build` is a function on immutable values, so extending an expression cannot change an existing one — trivially true in Lean; the tie to the real code is the DAG check: element objects SHARED between several expressions and re-used after being extended, for + * || chains, and_/or_ `&=`-style accumulation and clause lists, must still render and evaluate like the same tree built from fresh leaves), and the property itself is tested by executing the real statement on SQLite against an independent fully parenthesised reference over a table with NULLs, negatives, empty strings.",
+    "note": "Known findings (partial theorems + counterexamples in Lean, exact per-tree classification by neutralising the one defective decision): sqlite-concat-parent-arith-child (F1), negate-is-general-operand, between-bound-ungrouped, asbool-operand-ungrouped. The general theorem covers the core fragment incl. subquery / CAST / coalesce / CASE (value of a CAST and of a non-coalesce function abstract: class Abs); the backend's `/` itself is abstract in the value theorems (Val has no non-integer numbers); IS DISTINCT, IN with an empty list or a tuple (C07), BETWEEN with non-numeric operands and LIKE over non-string operands are covered pairwise (depth 2) by kernel decision plus the per-tree runtime verdict (wb, reading == tree) on every generated tree. PostgreSQL/MySQL grammar tables are from documentation and NOT validated (no server); only SQLite executes. Scalar subqueries and literals are atoms; floating point + and * are treated as associative. Trusted: Lean kernel, harness, backend lexers/bracket matching (the model starts from tokens), SQLite's evaluation of fully parenthesised text.",
     "technique": "Lean 4: verified precedence-climbing parser round-trip by structural induction + decide over regenerated operator tables + transcribed constructors; differential correspondence of rendering on 5 dialects; execution oracle on SQLite",
     "design_ref": "DESIGN.md §3 C01, §2 F1",
 }
